@@ -48,6 +48,7 @@ ASSUME PrintT("@@UNI " \o ToJson([ enums |-> [Color |-> <<"RED", "GREEN">>],
                                    inTypes |-> UNION {AllTypes(b) : b \in InBases},
                                    outTypes |-> UNION {AllTypes(b) : b \in OutBases} \cup {Named("Thing"), ListOf(Named("Thing"))},
                                    points |-> [p \in Points |-> Pt[p].dec],
+                                   knownTimes |-> ValidTimes \cup {SecsTime[p] : p \in DOMAIN SecsTime},
                                    holds |-> Holds, canonF32 |-> CanonF32, canonF64 |-> CanonF64 ]))
 
 -----------------------------------------------------------------------------
@@ -190,7 +191,7 @@ Nameds == {Named_(u) : u \in {Num("i1", "int8"), Num("i1", "int16"), Num("i1", "
                               Num("i1", "int"), Num("i1", "uint8"), Num("f1p5", "float64"), Num("f1p5", "float32"), Num("i1", "float64"),
                               Str("RED"), Str("42"), Bool(TRUE)}}
 NilPtr == [k |-> "nilptr"]
-GLeaves == NumAllKinds \cup OutStrs \cup Bools \cup Syms \cup {Tim(T1), Null, NilPtr} \cup Others \cup Nameds
+GLeaves == NumAllKinds \cup OutStrs \cup Bools \cup Syms \cup {Tim(T1), Null, NilPtr} \cup {Tim(x) : x \in FarTimes} \cup Others \cup Nameds
            \cup {GList("iface", "", <<Num("i1", "int")>>), GList("typed", "int", <<Num("i1", "int")>>)}
 C5(fam, t, gv) == [fam |-> fam, t |-> t, gv |-> gv]
 
